@@ -1,4 +1,5 @@
 import CoapVerif.Model.AllocOracle
+import CoapVerif.Lemmas.AllocBlock
 /-
 C18 — any single allocation failure is survived (property theorems about the allocation-oracle model M,
 Model/AllocOracle.lean).  All statements are ∀ oracle (any pattern of failing requests, not just one), ∀ arguments.
@@ -17,6 +18,19 @@ Model/AllocOracle.lean).  All statements are ∀ oracle (any pattern of failing 
                          | one new subscription, one more reference, exactly its four objects
   deleteObserver_spec    coap_delete_observer: nothing | one subscription, its reference and its four objects gone
   add_observer_succeeds_with_memory   all-true oracle: the registration succeeds
+
+Block-layer containers (Model/AllocBlock.lean, lemmas in Lemmas/AllocBlock.lean), all ∀ oracle:
+  obs_token_cnt_within_list   client, lg_crcv: for EVERY sequence of coap_block_new_lg_crcv / track_fetch_observe /
+                         coap_block_delete_lg_crcv calls obs_token_cnt never exceeds the allocated list and a NULL list
+                         has count 0: no call and no tear-down reads or writes outside the list
+  track_realloc_failure_atomic   when the list cannot be grown, list and count are exactly as before
+  lg_crcv_ledger_sound   for every call sequence the callers can produce: no object is released twice, and after the
+                         lg_crcv is deleted nothing it allocated is live
+  lg_srcv_ledger_sound   server, lg_srcv: for EVERY sequence of Block1 requests (any order, repeats, early and repeated
+                         final block, drops): no object is released twice, the live objects are at any time exactly the
+                         lg_srcv, its body and its last_token, and nothing is live after it is deleted
+  lg_srcv_failure_drops_state   a request answered 5.00 (allocation failure) leaves no transfer state at all
+  lg_srcv_restart_succeeds / lg_crcv_new_succeeds_with_memory   all-true oracle: a new transfer / a new lg_crcv is set up
 -/
 namespace Coap.C18
 open Coap Coap.AllocOracle
@@ -1584,5 +1598,239 @@ theorem script_verdict (orc : Oracle) (ops : List HOp) :
   show (match runLedger h.trace [] with | some [] => true | _ => false) = _
   rw [this]
   cases h.ok <;> cases h.live <;> simp
+
+/-! ## Block-layer containers: the client's list of Observe tokens, the server's Block1 reassembly state -/
+
+section BlockContainers
+open Coap.AllocBlock
+
+/-- **client, memory safety** — for EVERY sequence of calls (any block numbers, in any order: no discipline assumed) and
+EVERY oracle: no call of the model reads or writes outside the list of Observe tokens (`COut.invalid` never occurs), the
+lg_crcv that is left has `obs_token_cnt ≤` the allocated length of `obs_token` and a NULL list only with count 0, and the
+tear-down (`coap_block_delete_lg_crcv`, which walks `obs_token[0 .. obs_token_cnt)`) stays inside the list.
+(Seeded C18-7 falsifies exactly this: the count was raised before the realloc that can fail.) -/
+theorem obs_token_cnt_within_list (orc : Oracle) (evs : List CEv) :
+    let r := crcvRun none { orc := orc } evs
+    (∀ o ∈ r.1, o ≠ COut.invalid) ∧ (∀ c, r.2.1 = some c → c.cnt ≤ c.tab.length ∧ (c.tabId = none → c.cnt = 0)) ∧
+      (crcvCleanup r.2.1 r.2.2).isSome = true := by
+  intro r
+  obtain ⟨h1, h2⟩ := crcvRun_bound evs none { orc := orc } (fun c e => by simp at e)
+  refine ⟨h1, ?_, ?_⟩
+  · intro c e
+    have hb := h2 c e
+    refine ⟨hb.le, fun hn => ?_⟩
+    have := hb.nul hn
+    have := hb.le
+    simp_all
+  · cases e : r.2.1 with
+    | none => simp [crcvCleanup]
+    | some c =>
+      obtain ⟨h', eh⟩ := deleteCrcv_some (h2 c e) r.2.2
+      simp [crcvCleanup, eh]
+
+/-- when the list of Observe tokens cannot be grown (the request of `track_fetch_observe` fails) the lg_crcv is exactly
+as it was: same list, same count -/
+theorem track_realloc_failure_atomic (c : Crcv) (bn tokLen : Nat) (h : Heap) (hg : c.cnt ≤ bn)
+    (hf : (reallocOpt c.tabId h).1 = none) :
+    trackEstablish c bn tokLen h = some (c, (reallocOpt c.tabId h).2) := by
+  unfold trackEstablish
+  rw [if_pos hg]
+  rcases hr : reallocOpt c.tabId h with ⟨_ | t, h1⟩
+  · rfl
+  · rw [hr] at hf; simp at hf
+
+/-- **client, ledger** — for every call sequence inside the callers' discipline (`feasible`: the block numbers registered
+for one lg_crcv only go up, block 0 is repeated only while no later block is registered) and EVERY oracle: no object is
+ever released twice or released without having been allocated (`ok`), the tear-down succeeds, and afterwards NOTHING the
+lg_crcv ever allocated is live. -/
+theorem lg_crcv_ledger_sound (orc : Oracle) (evs : List CEv) (hf : feasible 0 evs = true) :
+    let r := crcvRun none { orc := orc } evs
+    r.2.2.ok = true ∧ ∃ fin, crcvCleanup r.2.1 r.2.2 = some fin ∧ fin.ok = true ∧ fin.live = [] := by
+  intro r
+  obtain ⟨hi', hI⟩ := crcvRun_own evs 0 none [] { orc := orc } (Own.init_empty orc) hf
+  have hok : r.2.2.ok = true := by
+    cases e : r.2.1 with
+    | none => have : SInvC hi' none [] r.2.2 := by rw [← e]; exact hI
+              exact this.ok
+    | some c => have : SInvC hi' (some c) [] r.2.2 := by rw [← e]; exact hI
+                exact this.own.ok
+  obtain ⟨fin, e1, e2⟩ := crcvCleanup_own hI
+  refine ⟨hok, fin, e1, e2.ok, ?_⟩
+  have := e2.mem
+  cases hl : fin.live with
+  | nil => rfl
+  | cons a t => have := (this a).mp (by rw [hl]; exact List.mem_cons_self); simp at this
+
+/-- the same from any sound heap: what was live before (`L`) is exactly what is live afterwards -/
+theorem lg_crcv_ledger_sound_from (h : Heap) (hok : h.ok = true) (hn : h.live.Nodup) (hfr : ∀ i ∈ h.live, i < h.next)
+    (evs : List CEv) (hf : feasible 0 evs = true) :
+    ∃ fin, crcvCleanup (crcvRun none h evs).2.1 (crcvRun none h evs).2.2 = some fin ∧ fin.ok = true ∧
+      ∀ i, i ∈ fin.live ↔ i ∈ h.live := by
+  obtain ⟨hi', hI⟩ := crcvRun_own evs 0 none h.live h (Own.init h hok hn hfr) hf
+  obtain ⟨fin, e1, e2⟩ := crcvCleanup_own hI
+  exact ⟨fin, e1, e2.ok, fun i => by simpa using e2.mem i⟩
+
+/-- **server, ledger** — for EVERY sequence of Block1 requests and drops (any order, repeated blocks, the final block
+early and again before the gap is filled, short blocks, …) and EVERY oracle: no object is ever released twice or released
+without having been allocated (`ok`), at any time the live objects are EXACTLY the lg_srcv, its body and its last_token
+(pairwise distinct), and once the lg_srcv is deleted nothing is live.
+(Seeded C18-8 falsifies exactly this: last_token released and still referenced when the lg_srcv is deleted.) -/
+theorem lg_srcv_ledger_sound (cfg : SCfg) (orc : Oracle) (evs : List SEv) :
+    let r := srcvRun cfg none { orc := orc } evs
+    r.2.2.ok = true ∧ (ownedSt r.2.1).Nodup ∧ (∀ i, i ∈ r.2.2.live ↔ i ∈ ownedSt r.2.1) ∧
+      (srcvCleanup r.2.1 r.2.2).ok = true ∧ (srcvCleanup r.2.1 r.2.2).live = [] := by
+  intro r
+  have hO := srcvRun_own cfg evs none [] { orc := orc } (Own.init_empty orc)
+  have hC := srcvCleanup_own hO
+  refine ⟨hO.ok, hO.onodup, fun i => by simpa using hO.mem i, hC.ok, ?_⟩
+  have := hC.mem
+  cases hl : (srcvCleanup r.2.1 r.2.2).live with
+  | nil => rfl
+  | cons a t => have := (this a).mp (by rw [hl]; exact List.mem_cons_self); simp at this
+
+/-- the same from any sound heap -/
+theorem lg_srcv_ledger_sound_from (cfg : SCfg) (h : Heap) (hok : h.ok = true) (hn : h.live.Nodup)
+    (hfr : ∀ i ∈ h.live, i < h.next) (evs : List SEv) :
+    let r := srcvRun cfg none h evs
+    (srcvCleanup r.2.1 r.2.2).ok = true ∧ ∀ i, i ∈ (srcvCleanup r.2.1 r.2.2).live ↔ i ∈ h.live := by
+  intro r
+  have hC := srcvCleanup_own (srcvRun_own cfg evs none h.live h (Own.init h hok hn hfr))
+  exact ⟨hC.ok, fun i => by simpa using hC.mem i⟩
+
+theorem srcvDecide_160 (lg : ASrcv) (m chunk tokLen : Nat) (h : Heap) :
+    (srcvDecide lg m chunk tokLen h).1 = .code 160 → (srcvDecide lg m chunk tokLen h).2.1 = none := by
+  unfold srcvDecide
+  simp only
+  repeat' split
+  all_goals simp
+
+theorem srcvUpdate_160 (lg : ASrcv) (rec' : Block.Ranges) (len offset m chunk tokLen : Nat) (h : Heap) :
+    (srcvUpdate lg rec' len offset m chunk tokLen h).1 = .code 160 →
+      (srcvUpdate lg rec' len offset m chunk tokLen h).2.1 = none := by
+  unfold srcvUpdate
+  simp only
+  split
+  · simp
+  · exact srcvDecide_160 _ _ _ _ _
+
+theorem srcvStore_160 (cap : Nat) (lg : ASrcv) (num m len chunk tokLen : Nat) (h : Heap) :
+    (srcvStore cap lg num m len chunk tokLen h).1 = .code 160 → (srcvStore cap lg num m len chunk tokLen h).2.1 = none := by
+  unfold srcvStore
+  simp only
+  split
+  · simp
+  · split
+    · simp
+    · split
+      · exact srcvUpdate_160 _ _ _ _ _ _ _ _
+      · exact srcvDecide_160 _ _ _ _ _
+
+/-- **server, clean failure** — a Block1 request that is answered 5.00 (the only answer of this path for a failed
+allocation) leaves NO transfer state: the lg_srcv with everything it owned is gone (by `lg_srcv_ledger_sound`: released
+exactly once), so the client's next attempt starts from scratch -/
+theorem lg_srcv_failure_drops_state (cap : Nat) (st : Option ASrcv) (num m szx plen tokLen : Nat) (size1 : Option Nat) (h : Heap) :
+    (srcvStep cap st num m szx plen tokLen size1 h).1 = .code 160 →
+      (srcvStep cap st num m szx plen tokLen size1 h).2.1 = none := by
+  unfold srcvStep
+  simp only
+  split
+  · simp
+  split
+  · simp
+  split
+  · simp
+  · split
+    · simp
+    · exact srcvStore_160 _ _ _ _ _ _ _ _
+
+theorem two_chunks_div (c : Nat) (hc : 0 < c) : (c + c - 1) / c = 1 := by
+  have h1 : c + c - 1 = c * 1 + (c - 1) := by omega
+  rw [h1, Nat.mul_add_div hc]
+  have : (c - 1) / c = 0 := Nat.div_eq_of_lt (by omega)
+  omega
+
+/-- **server, the next operation succeeds** — with memory available and no transfer state (as after a failure, see
+`lg_srcv_failure_drops_state`) the first block of a body is accepted: 2.31, a new lg_srcv with the block recorded and stored -/
+theorem lg_srcv_restart_succeeds (cap szx tokLen : Nat) (size1 : Option Nat) (h : Heap) (hc : 2 ≤ cap) (ho : AllTrue h.orc) :
+    ∃ lg h', srcvStep cap none 0 1 szx (2 ^ (szx + 4)) tokLen size1 h = (.code 95, some lg, h') ∧
+      lg.recv = [(0, 0)] ∧ lg.body.isSome = true ∧ lg.lastTok = none := by
+  have hpos : 0 < 2 ^ (szx + 4) := Nat.pow_pos (by omega)
+  obtain ⟨a1, a2⟩ := alloc_allTrue h ho
+  obtain ⟨b1, b2⟩ := alloc_allTrue h.alloc.2 a2
+  have hrl : Block.recvLoop cap 1 [] 0 false = some ([(0, 0)], true) := by
+    have : ¬ (0 = cap - 1) := by omega
+    simp [Block.recvLoop, Block.checkIfReceived, Block.updateReceived, Block.updateLoop, this]
+  unfold srcvStep srcvLocate
+  rcases hA : h.alloc with ⟨x, h1⟩
+  rw [hA] at a1 a2 b1 b2
+  simp only at a1 a2 b1 b2
+  subst a1
+  simp only [Nat.lt_irrefl, not_false_eq_true, ne_eq, not_true_eq_false, and_false, if_false, if_true,
+    srcvStore, Nat.mod_self, Nat.zero_mul, Nat.zero_add, two_chunks_div _ hpos, hrl, srcvUpdate, buildBody]
+  generalize hT : (if size1.getD 0 < 2 ^ (szx + 4) then 2 ^ (szx + 4) else size1.getD 0) = T
+  have hT1 : 2 ^ (szx + 4) ≤ T := by rw [← hT]; split <;> omega
+  have hT0 : T ≠ 0 := by omega
+  rcases hB : h1.alloc with ⟨y, h2⟩
+  rw [hB] at b1
+  simp only at b1
+  subst b1
+  simp [hT0, hT1, srcvDecide]
+
+/-- **client, the next operation succeeds** — with memory available coap_block_new_lg_crcv for a FETCH with Observe 0 gives
+an lg_crcv whose list holds exactly the token of block 0 -/
+theorem lg_crcv_new_succeeds_with_memory (tokLen : Nat) (h : Heap) (ho : AllTrue h.orc) :
+    ∃ c h', newCrcv true (some 0) tokLen h = some (some c, h') ∧ c.cnt = 1 ∧ c.tab.map (Option.map (·.2)) = [some tokLen] ∧
+      c.tabId.isSome = true := by
+  obtain ⟨a1, a2⟩ := alloc_allTrue h ho
+  rcases hA : h.alloc with ⟨x1, h1⟩
+  rw [hA] at a1 a2; simp only at a1 a2; subst a1
+  obtain ⟨b1, b2⟩ := alloc_allTrue h1 a2
+  rcases hB : h1.alloc with ⟨x2, h2⟩
+  rw [hB] at b1 b2; simp only at b1 b2; subst b1
+  obtain ⟨c1, c2⟩ := alloc_allTrue h2 b2
+  rcases hC : h2.alloc with ⟨x3, h3⟩
+  rw [hC] at c1 c2; simp only at c1 c2; subst c1
+  obtain ⟨d1, d2⟩ := alloc_allTrue h3 c2
+  rcases hD : h3.alloc with ⟨x4, h4⟩
+  rw [hD] at d1 d2; simp only at d1 d2; subst d1
+  obtain ⟨e1, e2⟩ := alloc_allTrue h4 d2
+  rcases hE : h4.alloc with ⟨x5, h5⟩
+  rw [hE] at e1 e2; simp only at e1 e2; subst e1
+  simp [newCrcv, hA, hB, hC, track, trackEstablish, reallocOpt, hD, storeToken, freeOpt, ser, hE]
+
+/-! ### non-vacuity and witnesses (`decide` on concrete runs) -/
+
+/-- the callers' discipline is satisfiable: new lg_crcv, blocks 1, 2, 5 registered, a cancel look-up, deleted, again -/
+example : feasible 0 [.new true (some 0) 4, .track (some 0) 1 8, .track (some 0) 2 8, .track (some 0) 5 8, .track (some 1) 2 2,
+    .del, .new true (some 0) 2, .track (some 0) 0 8] = true := by decide
+
+/-- the list cannot be grown for the first block (request 4 of coap_block_new_lg_crcv fails): the lg_crcv is there with
+count 0 and a NULL list; with memory available block 1 is then registered (entries: NULL, the token) -/
+example :
+    let r := crcvRun none { orc := oracleFailing 4 0 4 } [.new true (some 0) 4, .track (some 0) 1 8]
+    r.1 = [.num 1, .null] ∧ (r.2.1.map fun c => (c.cnt, c.tab.map (Option.map (·.2)))) = some (2, [none, some 8]) ∧
+      (crcvCleanup r.2.1 r.2.2).map (fun h => (h.ok, h.live)) = some (true, []) := by decide
+
+/-- the state seeded C18-7 produces (count 1, list NULL) is outside the invariant: the tear-down reads outside the list -/
+example : deleteCrcv { id := 1, cnt := 1 } { orc := [] } = none := by decide
+
+/-- the discipline is needed for the LEDGER part (not for memory safety): registering block 0 again after block 2 lowers
+the count to 1, the tokens of blocks 1 and 2 are never released (a leak of the real code WITHOUT any allocation failure,
+reachable only through the Echo repeat of check_freshness in the middle of a block-wise FETCH; not C18's subject) -/
+example :
+    let r := crcvRun none { orc := [] } [.new true (some 0) 4, .track (some 0) 1 8, .track (some 0) 2 8, .track (some 0) 0 8]
+    feasible 0 [.new true (some 0) 4, .track (some 0) 1 8, .track (some 0) 2 8, .track (some 0) 0 8] = false ∧
+      (crcvCleanup r.2.1 r.2.2).map (fun h => (h.ok, h.live.length)) = some (true, 2) := by decide
+
+/-- server: blocks 0, 4 (final, early), 4 again — the token copy of the repeat fails (request 5): 5.00, no state, nothing
+live; the body sent again in order with memory available is handed over complete -/
+example :
+    let cfg : SCfg := { cap := 4, szx := 5, tokLen := 2, size1 := none }
+    let r := srcvRun cfg none { orc := oracleFailing 5 0 5 }
+      [.block 0 1 512, .block 4 0 452, .block 4 0 452, .block 0 1 512, .block 1 1 512, .block 2 1 512, .block 3 1 512, .block 4 0 452]
+    r.1 = [.code 95, .code 0, .code 160, .code 95, .code 95, .code 95, .code 95, .deliver 2500] ∧ r.2.1 = none ∧
+      r.2.2.ok = true ∧ r.2.2.live = [] := by decide
+
+end BlockContainers
 
 end Coap.C18
